@@ -57,8 +57,36 @@ theorem C04_after_steps (c : Cfg) (hn : NoRep c) (s : State) (hr : Reach c s)
 /-- the outcome → handler map and the status cascade are the ones extracted from scheduler.go -/
 theorem C04_tables_are_source (c : Cfg) (s : State) (o : SStatus) :
     handlerOfTable Canon.Sched.handlerSwitch o = some (handlerOf o) ∧
-    overallOf c s Canon.Sched.statusCascade = some (overall c s) :=
+    overallOf c s Canon.Sched.statusCascade = some (reported c s) :=
   ⟨handlerOfTable_canon o, overallOf_canon c s⟩
+
+
+/-- **C04 (what is reported matches the handler that ran).** `Scheduler.Status` returns the live cascade
+    until all steps have finished and, from then on, the outcome read at that moment (fix 6076232): so
+    when `Schedule` returns, the reported outcome `o` is exactly the one whose handler plan ran — and a
+    stop request arriving while the handlers run changes neither (finding F44: on the pinned tree a
+    failed run whose onFailure handler had run could end up reported canceled). -/
+theorem C04_reported (c : Cfg) (s : State) (hr : Reach c s) :
+    (s.atWait = none → reported c s = overall c s) ∧
+    (s.loop = .returned → ∃ o, s.atWait = some o ∧ reported c s = o ∧ s.hlog = handlerPlan c o) ∧
+    (∀ s', step c s .setCanceled = some s' → s.atWait ≠ none → reported c s' = reported c s) := by
+  refine ⟨fun h => by simp [reported, h], ?_, ?_⟩
+  · intro hl
+    have hh := hlog_plan c s hr
+    cases hp : s.hplan with
+    | none => exact absurd hl (hh.1 hp).2.2.2
+    | some p =>
+      obtain ⟨⟨o, ho, hpo⟩, hrest⟩ := hh.2 p hp
+      refine ⟨o, ho, by simp [reported, ho], ?_⟩
+      rcases hrest with ⟨rest, hl2, _⟩ | ⟨_, hlog⟩
+      · rw [hl] at hl2; cases hl2
+      · rw [hlog, hpo]
+  · intro s' hs hne
+    simp only [step, Option.some.injEq] at hs
+    subst hs
+    cases ha : s.atWait with
+    | none => exact absurd ha hne
+    | some o => simp [reported, ha]
 
 /-! non-vacuity: one failing step, onFailure and onExit configured, onSuccess too: plan = [onFailure, onExit] -/
 def demo : Cfg := { n := 1, node := fun _ => {}, hSuccess := true, hFailure := true, hExit := true }
@@ -75,3 +103,4 @@ end BdModel.P04
 #print axioms BdModel.P04.C04_plan_shape
 #print axioms BdModel.P04.C04_after_steps
 #print axioms BdModel.P04.C04_tables_are_source
+#print axioms BdModel.P04.C04_reported
